@@ -121,7 +121,9 @@ CHECK = {
            'prefixes of one another (K1/K10/K100, Pri/Print): run-time types over every non-empty subset in every declaration '
            'order (325) x every order of first lookups of the five classes (120) with rotating entry points, then a sweep; and '
            'seven statically declared types over the same classes (longer before shorter, shorter before longer, only one of '
-           'them) x 120 lookup orders x 8 starting entry points, each from the cold record. cast = all ordered '
+           'them) x 120 lookup orders x 8 starting entry points, each from the cold record; and six classes with long names (two '
+           '40-byte names differing at byte 33, a 64-byte name that is a prefix of a 100-byte one, two 255-byte names differing '
+           'in the last byte): every subset in every declaration order (1956 types) x 12 lookup orders. cast = all ordered '
            'pairs of exported types, for a harness object of the type and for the type object itself. '
            'states = distinct (type, configuration) pairs reached (interned) in the deepest history family of the tier (pairs in '
            'quick, triples in thorough; shards partition the types) plus, for each run-time type object, 1 + the number of '
@@ -138,7 +140,7 @@ CHECK = {
               'n in {0,1,2,3,4,31,255,256}: all permutations of all n-subsets of an 8-class pool x 2 member variants for n<=4, '
               'all rotations x 2 variants above, 290-class lookup universe; recycled type blocks: 32 classes x n in {1,3} x 8 x 8 '
               'entry points x {other instance, class absent} x members (10112 cases; thorough x {del_raw, del_root}) + 316 '
-              'alternating-type cases; prefix-named classes: 39000 run-time + 6720 static-type histories; cast 71x71x2; ASan+UBSan: matrix, cast, pairs over '
+              'alternating-type cases; prefix-named and long-named classes: 39000 + 23472 run-time and 6720 static-type histories; cast 71x71x2; ASan+UBSan: matrix, cast, pairs over '
               'a 151-operation alphabet, long histories every 7th rotation, run-time n<=31 full and 255/256 every 16th rotation'),
     'thorough': ('as quick plus all ordered TRIPLES over the 240-operation alphabet (8 public entry points x 30 classes) per '
                  'type from cold (9.8e8 histories); run-time types n in {0..5,8,17,18,19,31,32,64,128,255,256}, '
